@@ -123,6 +123,18 @@ def chk_c07(rec, be):
                 if not (is_finite(v) and -EPS <= v <= mpv + EPS):
                     R.bad(name, "profile entry %r outside [0, multiplicity %r]" % (v, mpv))
                     break
+    # symmetry also with the automatic threshold (resolved from both trains)
+    if m == 0:
+        for name, f in list(PROFILES.items())[:3] + list(SCALARS.items()):
+            p = R.run(name, f, s1, s2, "auto", ri, mt)
+            q = R.run(name, f, s2, s1, "auto", ri, mt)
+            if p is None or q is None:
+                continue
+            if name in PROFILES:
+                if not same_profile(ptuple(p), ptuple(q)):
+                    R.bad(name, "MRTS='auto': f(a,b) = %s but f(b,a) = %s" % (pstr(ptuple(p)), pstr(ptuple(q))))
+            elif not close(p, q):
+                R.bad(name, "MRTS='auto': f(a,b) = %r but f(b,a) = %r" % (p, q))
     # order profile range
     p = R.run("spike_train_order_profile", PROFILES["spike_train_order_profile"], s1, s2, m, ri, mt)
     if p is not None:
@@ -211,6 +223,13 @@ def chk_c08(rec, be):
     a, b, ts, te = rec["a"], rec["b"], rec["ts"], rec["te"]
     m, ri, mt = _kw(rec)
     s1, s2 = train(a, ts, te), train(b, ts, te)
+    modes = [m] + (["auto"] if m == 0 else [])
+    for mode in modes:
+        _c08_mode(R, rec, a, b, ts, te, s1, s2, mode, ri, mt)
+    return R.result()
+
+
+def _c08_mode(R, rec, a, b, ts, te, s1, s2, m, ri, mt):
     base = {}
     for name, f in list(PROFILES.items()) + list(SCALARS.items()) + list(ORDER_SCALARS.items()):
         base[name] = R.run(name, f, s1, s2, m, ri, mt)
@@ -221,10 +240,10 @@ def chk_c08(rec, be):
         a2, ts2, te2 = _tr(a, ts, te, kind, par)
         b2, _, _ = _tr(b, ts, te, kind, par)
         f = par if kind == "scale" else 1.0
-        m2, mt2 = m * f, mt * f
+        m2, mt2 = (m if m == "auto" else m * f), mt * f
         t1 = pyspike.SpikeTrain(np.array(a2, dtype=float), [ts2, te2])
         t2 = pyspike.SpikeTrain(np.array(b2, dtype=float), [ts2, te2])
-        tag = "%s(%s)" % (kind, par)
+        tag = "%s(%s)%s" % (kind, par, " MRTS='auto'" if m == "auto" else "")
         for name, fn in PROFILES.items():
             if base[name] is None:
                 continue
@@ -252,7 +271,6 @@ def chk_c08(rec, be):
                 e = -e
             if not close(x, e):
                 R.bad(name, "%s: value %r expected %r" % (tag, x, e), float(x), float(e))
-    return R.result()
 
 
 # ------------------------------------------------------------------------------------- C15
@@ -441,6 +459,17 @@ def chk_c16(rec, be):
                     R.bad(name, "s=%g: spike b[%d]=%s marked coincident, no spike of a closer than max_tau=%g" % (
                         sg, k, b[k], mt / sg))
                     break
+        # the bound is honoured through the averaging interval too: if no two spikes are closer than
+        # max_tau, SPIKE-Sync over any interval counts no coincidence
+        if a and b and not any(abs(float(x) - float(y)) * sg < mt for x in a for y in b):
+            for iv in ((ts * sg, te * sg), ((ts + 0.5) * sg, (te - 0.5) * sg)):
+                v = R.run("spike_sync", lambda: pyspike.spike_sync(s1, s2, interval=iv, max_tau=mt, MRTS=m))
+                inside = [t for t in list(a) + list(b) if iv[0] < t * sg < iv[1]]
+                if v is not None and inside and not close(v, 0.0):
+                    R.bad("spike_sync", "s=%g interval=%s: no two spikes closer than max_tau=%g but SPIKE-Sync = %r" % (sg, iv, mt / sg, v))
+                v = R.run("spike_sync_matrix", lambda: pyspike.spike_sync_matrix([s1, s2], interval=iv, max_tau=mt, MRTS=m))
+                if v is not None and inside and not close(v[0][1], 0.0):
+                    R.bad("spike_sync_matrix", "s=%g interval=%s: no two spikes closer than max_tau=%g but entry = %r" % (sg, iv, mt / sg, v[0][1]))
         # enlarging max_tau never removes a coincidence (None = unbounded is the largest)
         bigger = sorted(set(float(fr([q, 4])) * sg for q in rec.get("_tauq", (0, 4)) if float(fr([q, 4])) * sg >= mt or q == 0))
         for mt2 in bigger:
